@@ -34,6 +34,9 @@ func Run(cfg hx.Config) error {
 	runGobin(r, rnd.Fork(), cfg)
 	runJar(r, rnd.Fork(), cfg)
 	runJarOdd(r, rnd.Fork(), cfg)
+	if err := runRhelRepo(r, rnd.Fork(), cfg); err != nil {
+		return err
+	}
 	if err := runOsOwned(r, rnd.Fork(), cfg); err != nil {
 		return err
 	}
